@@ -42,6 +42,7 @@ type Scenario struct {
 	LateReg   bool  `json:"latereg"`   // listeners may be registered after Close has started
 	Readers   bool  `json:"readers"`   // listeners are read by fast and slow readers during the run (otherwise: stalled, read at the end)
 	Resync    bool  `json:"resync"`    // every other explicit sync is a resync (WithAdsResync): the chain is reported again, the head recorded and notified again
+	HookSync  bool  `json:"hooksync"`  // the block hook of the first explicit sync starts an explicit sync of another publisher and waits for it
 	Idle      int   `json:"idle"`      // > 0: the idle handler TTL is 2 ms and the idle handler cleaner runs this many times at random points
 	Seed      int64 `json:"seed"`
 	Patience  int   `json:"patience,omitempty"` // watchdog multiplier (confirmation run of a hang)
@@ -93,6 +94,20 @@ type run struct {
 	failed     map[[2]int]bool // (publisher, head) whose announce-triggered sync failed and that was not announced again yet
 	faultsLeft int
 	frng       *rand.Rand
+	xmu        sync.Mutex
+	explicitG  map[int64]bool // goroutines running an explicit sync
+	nested     bool           // the nested sync has been started
+}
+
+// NestedPub is the publisher synced from inside a block hook (Scenario.HookSync); it is never announced.
+var NestedPub *chain.Pub
+
+// pub returns publisher number p (1-based); the nested target comes after the scenario's publishers.
+func (r *run) pub(p int) *chain.Pub {
+	if p == len(r.pubs)+1 {
+		return NestedPub
+	}
+	return r.pubs[p-1]
 }
 
 func (r *run) pnum(id peer.ID) int {
@@ -101,6 +116,9 @@ func (r *run) pnum(id peer.ID) int {
 			return i + 1
 		}
 	}
+	if NestedPub != nil && NestedPub.ID == id {
+		return len(r.pubs) + 1
+	}
 	return 0
 }
 
@@ -108,7 +126,7 @@ func (r *run) cnum(p int, c cid.Cid) int {
 	if p == 0 || c == cid.Undef {
 		return 0
 	}
-	if i, ok := r.pubs[p-1].Chain.Index[c]; ok {
+	if i, ok := r.pub(p).Chain.Index[c]; ok {
 		return i
 	}
 	return -1
@@ -117,6 +135,43 @@ func (r *run) cnum(p int, c cid.Cid) int {
 var syncFrames = []string{"dagsync.(*handler).asyncSyncAdChain", "dagsync.(*handler).handle", "dagsync.(*Subscriber).SyncAdChain", "dagsync.(*Subscriber).watch.func"}
 
 const idleTTL = 2 * time.Millisecond
+
+// maybeNested: called from the block hook.  In a HookSync scenario the first block an explicit sync reports makes the hook
+// start an explicit sync of another publisher (NestedPub) and wait for it before it returns -- what an application does that
+// reacts to an advertisement by syncing something else.  The waiting hook parks at the scheduler ("x.wait") so that everything
+// else can go on, Close included.
+func (r *run) maybeNested(p int) {
+	if !r.sc.HookSync || NestedPub == nil || p == len(r.pubs)+1 {
+		return
+	}
+	r.xmu.Lock()
+	start := !r.nested && r.explicitG[gate.Goid()]
+	if start {
+		r.nested = true
+	}
+	r.xmu.Unlock()
+	if !start {
+		return
+	}
+	s := r.s
+	np := len(r.pubs) + 1
+	done := make(chan struct{})
+	s.RecordG(gate.Event{Ev: "env.nested", P: np})
+	s.Go("nested", func() {
+		defer close(done)
+		s.RecordG(gate.Event{Ev: "env.explicit.start", P: np})
+		c, err := r.sub.SyncAdChain(context.Background(), NestedPub.AddrInfo())
+		s.RecordG(gate.Event{Ev: "env.explicit.ret", P: np, C: r.cnum(np, c), Err: err != nil})
+	})
+	for {
+		select {
+		case <-done:
+			return
+		default:
+		}
+		s.Yield("x.wait", 0, 0)
+	}
+}
 
 // parkedWork returns the parked goroutines except the idle handler cleaner, which parks at every tick of its timer for as
 // long as the subscriber lives and is released by the environment action "clean".
@@ -161,7 +216,7 @@ func (r *run) cleanPasses() string {
 // Execute runs one scenario and returns the trace plus a divergence (hang etc.) if the run itself failed.
 func Execute(sc Scenario, pubs []*chain.Pub) (log []gate.Event, key, detail string) {
 	r := &run{sc: sc, s: gate.New(sc.Seed), pubs: pubs, dst: lsys.NewStore(), announced: make([]int, len(pubs)),
-		failed: map[[2]int]bool{}, faultsLeft: sc.Faults, frng: rand.New(rand.NewSource(sc.Seed ^ 0x5eed))}
+		failed: map[[2]int]bool{}, explicitG: map[int64]bool{}, faultsLeft: sc.Faults, frng: rand.New(rand.NewSource(sc.Seed ^ 0x5eed))}
 	s := r.s
 	if sc.Patience > 1 {
 		s.Watchdog *= time.Duration(sc.Patience)
@@ -212,6 +267,11 @@ func Execute(sc Scenario, pubs []*chain.Pub) (log []gate.Event, key, detail stri
 			p.Intercept = nil
 		}
 	}()
+	if sc.HookSync && NestedPub != nil {
+		NestedPub.Reset(0)
+		NestedPub.Intercept = nil
+		NestedPub.Pub.SetRoot(NestedPub.Chain.Cids[sc.Ads])
+	}
 	if sc.Separate {
 		last := pubs[len(pubs)-1]
 		last.Pub.SetRoot(last.Chain.Cids[sc.Ads])
@@ -220,7 +280,8 @@ func Execute(sc Scenario, pubs []*chain.Pub) (log []gate.Event, key, detail stri
 	hook := func(pid peer.ID, c cid.Cid, actions dagsync.SegmentSyncActions) {
 		p := r.pnum(pid)
 		s.RecordG(gate.Event{Ev: "hook", P: p, C: r.cnum(p, c)})
-		actions.SetNextSyncCid(pubs[p-1].Chain.Prev(c))
+		actions.SetNextSyncCid(r.pub(p).Chain.Prev(c))
+		r.maybeNested(p)
 	}
 	opts := []dagsync.Option{dagsync.BlockHook(hook), dagsync.RecvAnnounce(""), dagsync.HttpTimeout(5 * time.Second)}
 	if sc.Sem > 0 {
@@ -334,7 +395,7 @@ func Execute(sc Scenario, pubs []*chain.Pub) (log []gate.Event, key, detail stri
 		return todo
 	}
 	ctx := context.Background()
-	stragglerWaits := 0
+	stragglerWaits, waitSpins := 0, 0
 	lastProgress := time.Now()
 	for step := 0; step < 4000+80*sc.Ads*sc.Pubs; step++ {
 		parked := r.parkedWork()
@@ -344,6 +405,18 @@ func Execute(sc Scenario, pubs []*chain.Pub) (log []gate.Event, key, detail stri
 		}
 		if len(parked) != 0 || len(env) != 0 {
 			lastProgress = time.Now()
+		}
+		// a block hook that waits for the call it made, and nothing else left that could move: the call never returns
+		if w := s.ParkedAt("x.wait"); w != 0 && len(parked) == 1 && parked[0] == w && len(env) == 0 {
+			waitSpins++
+			time.Sleep(time.Millisecond)
+			if waitSpins > 400 {
+				_, _, stacks := s.Unfinished(append([]string{"dagsync.(*Subscriber).doClose", "dagsync.(*Subscriber).Close"}, syncFrames...))
+				key, detail = "hang", "a sync started from inside a block hook never returned, and nothing else is left to run:\n"+stacks
+				break
+			}
+		} else {
+			waitSpins = 0
 		}
 		if len(parked) == 0 && len(env) == 0 {
 			// really over?  a sync goroutine that is neither parked nor blocked is still on its way to a hook
@@ -416,6 +489,9 @@ func Execute(sc Scenario, pubs []*chain.Pub) (log []gate.Event, key, detail stri
 						own = xk
 					}
 					s.RecordG(gate.Event{Ev: "env.explicit.start", P: a.p, N: own})
+					r.xmu.Lock()
+					r.explicitG[gate.Goid()] = true
+					r.xmu.Unlock()
 					c, err := r.sub.SyncAdChain(xctx, p.AddrInfo(), sopts...)
 					s.RecordG(gate.Event{Ev: "env.explicit.ret", P: a.p, C: r.cnum(a.p, c), Err: err != nil})
 				})
@@ -507,6 +583,9 @@ func Execute(sc Scenario, pubs []*chain.Pub) (log []gate.Event, key, detail stri
 			if r.sub.RemoveHandler(pubs[p].ID) {
 				have = append(have, p+1)
 			}
+		}
+		if sc.HookSync && NestedPub != nil && r.sub.RemoveHandler(NestedPub.ID) {
+			have = append(have, len(pubs)+1)
 		}
 		s.Record(gate.Event{Ev: "final.handlers", Q: have})
 	}
@@ -691,6 +770,13 @@ func Run(args []string) *rep.Report {
 		}
 		pubs = append(pubs, p)
 	}
+	if ch, err := chain.Build("ads", 4, "c08-nested"); err == nil {
+		NestedPub, _ = chain.NewPub(ch, "c08-pub-nested", true)
+	}
+	if NestedPub == nil {
+		r.SetExtra("read_error", "nested publisher")
+		return r
+	}
 	var long *chain.Pub
 	if *family == "stall" {
 		ch, err := chain.Build("ads", *stallAds, "c14-long")
@@ -751,6 +837,7 @@ func Run(args []string) *rep.Report {
 			sc.LateReg = true
 			sc.Explicit, sc.Separate = 1+(i/2)%2, true
 			sc.Pubs = 2 + i%2
+			sc.HookSync = i%3 == 2
 		}
 		if i%5 == 4 && !sc.Separate && *family != "stall" {
 			sc.Pubs = 3
